@@ -1,7 +1,7 @@
 """Rules over the decoder's path analysis (decoder.py), shared by C01, C02, C06, C07, C08."""
 import re
 
-from facts import AnchorMissing, op_place, short, term_callee
+from facts import AnchorMissing, op_int, op_place, short, term_callee
 from decoder import (CTX_FLAGS, CTX_TYPES, STYLE_MARKERS, Decoder, fn_short, last_field)
 from pathflow import simple_local
 
@@ -475,13 +475,31 @@ def rule_raw_field_tests(chk, facts):
         rejecting = []
         for tgt in targets:
             cur, steps, rej = tgt, 0, False
-            while cur is not None and steps < 14:
+            consts = {}
+            while cur is not None and steps < 20:
                 blk = b.blocks[cur]
                 steps += 1
                 for st in blk["s"]:
                     if st["k"] == "assign" and st["r"].get("k") == "agg" and st["r"].get("variant") == "Err":
                         rej = True
+                    if st["k"] == "assign" and not st["p"].get("p"):
+                        v = op_int(st["r"]["o"]) if st["r"].get("k") == "use" else None
+                        if v is not None:
+                            consts[st["p"]["l"]] = v
+                        else:
+                            pl = op_place(st["r"]["o"]) if st["r"].get("k") == "use" else None
+                            if pl is not None and not pl.get("p") and pl["l"] in consts:
+                                consts[st["p"]["l"]] = consts[pl["l"]]
+                            else:
+                                consts.pop(st["p"]["l"], None)
                 tt = blk["t"]
+                if tt["k"] == "switch":
+                    # `matches!(..)` materialises a bool and branches on it again: follow the branch the constant selects
+                    dpl = op_place(tt["d"])
+                    if dpl is not None and not dpl.get("p") and dpl["l"] in consts:
+                        v = consts[dpl["l"]]
+                        cur = tt["ts"][tt["vals"].index(v)] if v in tt["vals"] else tt.get("o")
+                        continue
                 if tt["k"] == "call":
                     d, rr = term_callee(tt)
                     if re.search(r"error::Error::(subtype|msg)$|FromResidual", rr or d or ""):
